@@ -364,6 +364,9 @@ func (hs *serverHandshakeStateGM) doFullHandshake() error {
 	for i := 0; i < len(hs.cert); i++ {
 		certMsg.certificates = append(certMsg.certificates, hs.cert[i].Certificate...)
 	}
+	// GM/T 0024: the signing certificate comes first, the encryption
+	// certificate second, the rest of both chains after them.
+	certMsg.certificates = leavesFirst(hs.cert)
 	hs.finishedHash.Write(certMsg.marshal())
 	if _, err := c.writeRecord(recordTypeHandshake, certMsg.marshal()); err != nil {
 		return err
@@ -701,6 +704,32 @@ func (hs *serverHandshakeStateGM) processCertsFromClient(certificates [][]byte) 
 	}
 	c.peerCertificates = certs
 	return pub, nil
+}
+
+// leavesFirst lists the leaf certificate of every chain, then what follows the
+// leaf in each chain, leaving out certificates that are already listed.
+func leavesFirst(chains []Certificate) [][]byte {
+	var out [][]byte
+	for _, ch := range chains {
+		if len(ch.Certificate) > 0 {
+			out = append(out, ch.Certificate[0])
+		}
+	}
+	for _, ch := range chains {
+		for i := 1; i < len(ch.Certificate); i++ {
+			dup := false
+			for _, c := range out {
+				if string(c) == string(ch.Certificate[i]) {
+					dup = true
+					break
+				}
+			}
+			if !dup {
+				out = append(out, ch.Certificate[i])
+			}
+		}
+	}
+	return out
 }
 
 // setCipherSuite sets a cipherSuite with the given id as the serverHandshakeStateGM
